@@ -8,6 +8,7 @@ import (
 	"bytes"
 	"fmt"
 	"os"
+	"runtime/debug"
 	"testing"
 
 	"pgregory.net/rapid"
@@ -420,6 +421,7 @@ func vfRunBufCase(c *vfBufCase) (st vfBufStats, sig, msg string) {
 		dir = os.TempDir()
 	}
 	r := &vfBufRun{c: c}
+	defer debug.SetPanicOnFault(debug.SetPanicOnFault(true)) // a stale slice into a moved mapping: a panic of this case, not the death of the process
 	defer func() {
 		if p := recover(); p != nil {
 			st = r.st
